@@ -73,7 +73,13 @@ func VerifC08Session() {
 	p.Step(nm("g1"), true, "probe/g1")
 	p.Step(nm("g2"), true, "probe/g2")
 	p.Step(call("surv", ilit(5)), true, "probe/function-bound-in-the-failed-statement")
-	switch vrt.Choice("probe", 4) {
+	switch vrt.Choice("probe", 5) {
+	case 4: // a closure whose defining call reallocates the operand stack before updating the captured variable
+		p.steps("probe-defs", false,
+			asg("dive", fn(node.IfElse{Condition: bin(">", nm("d"), ilit(0)), TrueCase: bin("+", call("dive", bin("-", nm("d"), ilit(1))), ilit(1)), FalseCase: ilit(0)}, "d")),
+			asg("mkc", fn(blk(asg("y", nm("n")), asg("g", fn(nm("y"))), asg("dd", call("dive", ilit(140))), asg("y", bin("*", nm("n"), ilit(10))), node.List{Elems: []node.Type{call("g"), nm("y")}}), "n")))
+		p.Step(call("mkc", lit()), true, "probe/closure-across-stack-growth")
+		p.Step(call("mkc", lit()), true, "probe/closure-across-stack-growth-again")
 	case 0:
 		p.Step(call("wrapf", ilit(5)), true, "probe/call")
 	case 1:
